@@ -444,13 +444,55 @@ def _freeze_once():
         _FROZEN = True
 
 
+def run_tail(d, tail):
+    """after the history, in the same process and on the same paths: both files are deleted (every listing and
+    predicate must see that), then one collection is created again at a path of file A and judged by the ordinary
+    oracle for what is stored NOW (state carried over from the earlier calls would show here)"""
+    from cooler import fileops
+    fails = []
+    for f in G.FILES:
+        try:
+            os.remove(os.path.join(d, f + ".cool"))
+        except OSError:
+            pass
+
+    def preds(f):
+        fn = os.path.join(d, f + ".cool")
+        out = {}
+        for name, fun in (("is_scool_file", fileops.is_scool_file), ("is_multires_file", fileops.is_multires_file)):
+            o, v = G.guarded(fun, fn)
+            out[name] = bool(v) if o == "Ok" else o
+        return out
+    obs = observe_impl(d)
+    for f in G.FILES:
+        if obs[f]["listing"][0] != "EOS" or any(v is not False for v in obs[f]["is_cooler"].values()) \
+                or preds(f) != {"is_scool_file": "EOS", "is_multires_file": False}:
+            fails.append(({"rule": "T deleted file still answers", "file": f, "listing": obs[f]["listing"],
+                           "is_cooler_true": [q for q, v in obs[f]["is_cooler"].items() if v is not False], "preds": preds(f)}, None))
+    S0 = snapshot(d)
+    op = {"op": "create", "f": "A", "p": tail["p"], "mode": "a", "k": tail["k"]}
+    outcome = G.apply_op(d, op)
+    obs = observe_impl(d)
+    S1 = snapshot(d)
+    for det, sig in oracle_step(d, op, outcome, S0, S1, {f: obs[f]["listing"] for f in G.FILES},
+                                {f: obs[f]["is_cooler"] for f in G.FILES}):
+        det["phase"] = "re-created after deletion"
+        fails.append((det, sig))
+    if outcome != "Ok":
+        fails.append(({"rule": "T create after deletion refused", "outcome": outcome}, None))
+    if preds("A") != {"is_scool_file": False, "is_multires_file": False}:
+        fails.append(({"rule": "T a plain collection file taken for single-cell / multi-resolution", "preds": preds("A")}, None))
+    return fails
+
+
 def run_history(task):
     """worker: run (or generate-and-run) one history on the real code; returns ops, per-step
     observations and oracle failures"""
     import warnings
     warnings.filterwarnings("ignore")
     _freeze_once()
-    base, hid, seed, ops_in, nops, stream = task
+    base, hid, seed, ops_in, nops, stream = task[:6]
+    tail = task[6] if len(task) > 6 else None
     d = os.path.join(base, f"h{hid}")
     os.makedirs(d, exist_ok=True)
     rng = random.Random(seed)
@@ -472,9 +514,10 @@ def run_history(task):
             steps.append({"outcome": outcome, "obs": obs})
             S0 = S1
         final = {f: G.canon_dump(G.raw_dump(d, f, 5)) for f in G.FILES}
+        tail_fails = run_tail(d, tail) if tail else []
     finally:
         shutil.rmtree(d, ignore_errors=True)
-    return {"ops": ops, "steps": steps, "final": final, "fails": fails}
+    return {"ops": ops, "steps": steps, "final": final, "fails": fails, "tail_fails": tail_fails}
 
 
 # ------------------------------------------------------------------ the model side
@@ -602,8 +645,9 @@ def run(ctx):
         tasks.append((base, hid, 0, ops, None, "corpus"))
         hid += 1
     n_main, n_missing = (1500, 300) if thorough else (260, 50)
-    for _ in range(n_main):
-        tasks.append((base, hid, rng.randrange(2 ** 31), None, rng.randint(2, 8 if thorough else 6), "existing"))
+    for i_ in range(n_main):
+        tail = {"p": rng.choice(PATHS), "k": rng.randrange(20)} if i_ % 3 == 0 else None
+        tasks.append((base, hid, rng.randrange(2 ** 31), None, rng.randint(2, 8 if thorough else 6), "existing", tail))
         hid += 1
     for _ in range(n_missing):
         tasks.append((base, hid, rng.randrange(2 ** 31), None, rng.randint(2, 5), "missing"))
@@ -628,6 +672,8 @@ def run(ctx):
                 if diff2 is not None:
                     case, diff = {"ops": ops2, "shrunk_from": len(ops)}, diff2
             ctx.disagree("history step observable: " + str(diff.get("what")), case, diff.get("impl"), diff.get("model"))
+        for det, sig in rec.get("tail_fails", []):
+            ctx.fail({"ops": ops, "tail": task[6]}, det, sig)
         seen = set()
         for det, sig in rec["fails"]:
             keyf = (sig, det["rule"])
@@ -674,9 +720,9 @@ def replay(ctx, case):
     on its last step (earlier steps may carry known findings of their own)"""
     base = str(ctx.tmp / "replay")
     os.makedirs(base, exist_ok=True)
-    rec = run_history((base, 0, 0, case["ops"], None, "replay"))
+    rec = run_history((base, 0, 0, case["ops"], None, "replay", case.get("tail")))
     last = len(case["ops"]) - 1
-    bad = [f for f in rec["fails"] if f[0]["step"] == last]
+    bad = [f for f in rec["fails"] if f[0]["step"] == last] if not case.get("tail") else [f for f in rec["tail_fails"] if f[1] is None]
     for det, sig in bad:
         print("  ", sig, json.dumps(det, default=str)[:400])
     return not bad
